@@ -9,7 +9,7 @@ use arc_swap::{ArcSwap, Cache};
 use boomphf::Mphf;
 
 use super::{
-    EVENTS_OFFSET_SIZE, PartitionIndexRecord, PartitionSequenceOffset, RECORD_SIZE, SEQUENCE_SIZE,
+    EVENTS_LEN_SIZE, EVENTS_OFFSET_SIZE, PartitionIndexRecord, PartitionSequenceOffset, RECORD_SIZE, SEQUENCE_SIZE,
 };
 use crate::bucket::{BucketSegmentId, PartitionId};
 use crate::error::PartitionIndexError;
@@ -220,6 +220,31 @@ fn load_index_from_file(
 
     // The records array immediately follows
     let records_offset = 4 + 8 + 8 + mph_bytes_len as u64;
+
+    // The file is written in the background and never fsynced: a crash can cut it short
+    // anywhere. Every record and the offsets it points to have to lie inside the file.
+    let file_len = file.metadata()?.len();
+    let mut records = vec![0u8; n as usize * RECORD_SIZE];
+    file.read_exact_at(&mut records, records_offset)
+        .map_err(|_| PartitionIndexError::CorruptRecord {
+            offset: records_offset,
+        })?;
+    for (i, record) in records.chunks_exact(RECORD_SIZE).enumerate() {
+        let events_offset = u64::from_le_bytes(
+            record[RECORD_SIZE - EVENTS_LEN_SIZE - EVENTS_OFFSET_SIZE..RECORD_SIZE - EVENTS_LEN_SIZE]
+                .try_into()
+                .unwrap(),
+        );
+        let events_len =
+            u32::from_le_bytes(record[RECORD_SIZE - EVENTS_LEN_SIZE..].try_into().unwrap());
+        let events_end =
+            events_offset + events_len as u64 * (SEQUENCE_SIZE + EVENTS_OFFSET_SIZE) as u64;
+        if events_end > file_len {
+            return Err(PartitionIndexError::CorruptRecord {
+                offset: records_offset + (i * RECORD_SIZE) as u64,
+            });
+        }
+    }
 
     Ok((mph, n, records_offset))
 }
